@@ -393,6 +393,11 @@ def _gen_table(rng, ty, n, m, density):
         name, f, unit = f"p{p}", (lambda: 1 if rng.random() < p else 0), 1
     else:
         unit, name, f = _float_dist(rng)
+        if density >= 1 and rng.random() < 0.3:
+            # COMPLETE float tables far beyond 2^53 (no sentinel arithmetic is involved there): k * 2^e keeps every sum
+            # the solver forms exact
+            e = rng.choice([53, 54, 60, 62, 63, 64, 100, 1000])
+            unit, name, f = 1, f"huge-2^{e}", (lambda: rng.randint(0, 64) * 2 ** e)
     cells = [[([ty, f()] if rng.random() < density else None) for _ in range(m)] for _ in range(n)]
     return cells, unit, name
 
